@@ -450,6 +450,12 @@ func (h *harness) confirmHang(e *entry, st *stats, in input) {
 			return
 		}
 	}
+	if expired == 3 && e.hangGroup != "" {
+		// settled for the whole group before the next entry point of the group gets its turn
+		h.mu.Lock()
+		h.hangs["group:"+e.hangGroup] = true
+		h.mu.Unlock()
+	}
 	h.alone.Unlock()
 	if expired < 3 {
 		h.r.Inconclusive(fmt.Sprintf("%s: watchdog expired once but the input returned when rerun alone (mutations %v)", e.name, in.ops))
@@ -457,9 +463,6 @@ func (h *harness) confirmHang(e *entry, st *stats, in input) {
 	}
 	h.mu.Lock()
 	h.hangs[key] = true
-	if e.hangGroup != "" {
-		h.hangs["group:"+e.hangGroup] = true
-	}
 	h.mu.Unlock()
 	st.mu.Lock()
 	st.Hangs++
@@ -547,10 +550,17 @@ func TestCheck(t *testing.T) {
 		"(null, type confusion x5, delete, wrap, unwrap, empty/null-element arrays, duplicated member same/other type, number extremes; sweep sampled evenly when over the tier cap) " +
 		"+ evenly spread truncations + seeded random 1-3 fold mutation (adds deep nesting, string/number variant tables, subtree swaps, byte damage); JWS/JWT inputs are re-signed after mutation, " +
 		"protobuf envelopes are mutated per field. Each case = one call of the real entry point under recover + 20s watchdog (child process for background handlers, full node for HTTP). " +
-		"Non-trivial = a mutated (not pristine) input whose call was observed to completion/panic/expiry; distinct by (entry, operator@pointer set).")
+		"Non-trivial = a mutated (not pristine) input whose call was observed to completion/panic/expiry; distinct by (entry, operator@pointer set). " +
+		"Entry points whose input is a sequence: status list refresh = (cached copy: none / with / without expiry) x (ageing of the stored copy: fresh, past its maximum age, past its expiry, both, epoch, future, expiry column null) " +
+		"x (answer of the list host to the refresh: transport and HTTP faults, broken bodies, lists that fail validation, valid re-issues, structure-aware mutants of valid lists); " +
+		"response cache (the CachingRoundTripper alone, and under the StrictHTTPClient of did:web resolution and of the status list fetch) = (cache size) x (what the cache answered before: empty, several entries in ascending/descending expiry, expired, nearly full, replaced, same path with other queries) " +
+		"x (caching headers) x (body length: 0, 1, max-bytes-1/+0/+1, 2x max-bytes, response limit-1/+0/+1, far over every limit, endless), followed by further requests on the same cache; " +
+		"discovery client = answers (entries/seed/timestamp, presentations re-signed after mutation; HTTP envelope faults) of a harness Discovery Server to the real client updater of a second node. " +
+		"Further observed events there: bytes read from each response body (bound max(cache size, 1 MiB)+64 KiB), bytes the cache retains (bound: its maximum), answers compared byte by byte with what the server sent, stored copy before/after inside the sequence.")
 	r.Require(r.Pick(15000, 250000), r.Pick(12000, 150000))
 	r.Assume("inputs are those reachable by the listed operators from the harness' valid instances; a silent run says nothing about other inputs")
 	r.Assume("a watchdog expiry (20s) is a hang only when the same input expires 3 more times with nothing else running and then also does not return within 150s alone; otherwise inconclusive (slow input)")
+	r.Assume("time in the status list sequences is virtual: the stored copy ages by moving the created_at/expires columns of its row; cache entries expire through the caching headers (max-age=0, Expires before Date), never by waiting")
 	r.Assume("unrecoverable runtime errors (stack exhaustion, out of memory) in in-process entry points would abort the check as BROKEN with the input left in replay/C19/current/")
 
 	if prof := os.Getenv("VERIF_C19_MEMPROF"); prof != "" {
